@@ -186,3 +186,16 @@ package tsi
 //@   loop 1
 //@     invariant exist ==> compared
 //@     invariant exist && againstEmpty ==> !(tf.isNegative ? !m : m)
+
+// ================================================================ C13: every way of collecting series ids honours a drop
+// A tag filter is answered either by the slow scan (which skips deleted ids one by one) or, for a regex that is an
+// alternation of literals (`host =~ /a|b/`), by one index seek per alternative. The ids collected by that fast path are
+// raw index rows: the dropped ids are taken out of the result before it is returned.
+//@ prop C13 C10
+//@ func (*indexSearch).updateTSIDsByOrSuffixes
+//@   requires is != nil && tf != nil
+//@   ghost sub bool = false
+//@   call .Subtract
+//@     requires [the_deleted_set_of_this_search] arg0 == is.deleted
+//@     set sub = true
+//@   ensures [dropped_ids_are_taken_out_of_the_fast_path_result] result1 == nil && is.deleted != nil ==> sub
